@@ -17,8 +17,28 @@ Import ListNotations.
 Open Scope string_scope.
 Open Scope N_scope.
 
+(* core._is_one_rle_run: the definition levels at the cursor are a 4-byte length and ONE RLE run of n times the level
+   `maxdef` - the only layout skip_definition_bytes steps over correctly (repaired code: the shortcut is taken only then) *)
+Definition guard_def (maxdef n : N) (raw : bytes) : bool :=
+  match le_dec 4 raw with
+  | Some (len, r) =>
+    match uleb_dec r with
+    | Some (hd, lvl :: r3) => (hd =? 2 * n) && (lvl =? maxdef) && (len =? lenN r - lenN r3) &&
+                              (skip_hand n =? lenN raw - lenN r3)          (* skip_definition_bytes lands behind the run *)
+    | _ => false
+    end
+  | None => false
+  end.
+
+(* core._is_one_bitpacked_run: the indices at the cursor are ONE bit-packed run holding at least nval values *)
+Definition guard_idx (nval : N) (body : bytes) : bool :=
+  match uleb_dec body with
+  | Some (hd, _) => N.odd hd && (nval <=? (hd / 2) * 8)
+  | None => false
+  end.
+
 Definition rd_def_sm (skip_nulls : bool) (maxdef n : N) (raw : bytes) : rs (option (list N) * N * bytes) :=
-  if skip_nulls && negb (maxdef =? 0) then ROk (None, 0, dropN (skip_hand n) raw)
+  if skip_nulls && (negb (maxdef =? 0) && guard_def maxdef n raw) then ROk (None, 0, dropN (skip_hand n) raw)
   else rd_def maxdef n raw.
 
 (* the first min(nval, available) codes of k bytes each out of at most `want` codes *)
@@ -41,7 +61,7 @@ Definition rd_data_page_sm (selfmade skip_nulls : bool) (cd : coldesc) (h : dph)
     match rest with
     | [] => RBad "read_byte past the end"
     | bw :: body =>
-      if ((bw =? 8) || (bw =? 16) || (bw =? 32)) && selfmade then
+      if ((bw =? 8) || (bw =? 16) || (bw =? 32)) && (selfmade && guard_idx nval body) then
         match uleb_dec body with
         | Some (hd, r) => let! ix := rd_codes_raw (bw / 8) ((hd / 2) * 8) nval r in ROk (defi, RIdx ix)
         | None => RBad "varint past the end"
